@@ -13,7 +13,7 @@ H04b (soundness with the real constructors): `A accepts B and o in B  =>  o in A
 from __future__ import annotations
 
 import itertools
-from typing import List, Protocol, TypeVar
+from typing import List, Protocol, TypeVar, runtime_checkable
 
 from pyanalyze.value import (
     NO_RETURN_VALUE,
@@ -190,6 +190,7 @@ def h04_sound(p0: int, p1: int, q0: int, q1: int, f0: bool, f1: bool, f2: bool, 
 # the later ones are chosen by symbolic selectors; every verdict is compared with the member-type reference.
 
 
+@runtime_checkable
 class Getter(Protocol[TP]):
     def get(self) -> TP:
         raise NotImplementedError
@@ -212,6 +213,7 @@ class GetStr:
 
 P_ARGS = [int, bool, str, float, object]
 P_IMPLS = [(GetInt, int), (GetBool, bool), (GetStr, str)]
+P_INSTANCES = [GetInt(), GetBool(), GetStr()]
 
 
 def _proto_ref(a: type, b: type) -> bool:
@@ -238,7 +240,12 @@ def _proto_query(q: int, ctx) -> bool:
     a = _sel(P_ARGS, q // len(P_IMPLS))
     impl, b = _sel(P_IMPLS, q % len(P_IMPLS))
     got = _ok(GenericValue(Getter, [TypedValue(a)]).can_assign(TypedValue(impl), ctx))
-    return got == _proto_ref(a, b)
+    if got != _proto_ref(a, b):
+        return False
+    # the same question about a concrete instance (a literal): isinstance() against a runtime-checkable protocol
+    # only tests that the member exists, it must not override the structural verdict
+    got_lit = _ok(GenericValue(Getter, [TypedValue(a)]).can_assign(KnownValue(_sel(P_INSTANCES, q % len(P_IMPLS))), ctx))
+    return got_lit == _proto_ref(a, b)
 
 
 def h04_proto(j: int, k: int) -> bool:
